@@ -25,10 +25,64 @@ def setup():
     return 0 if ok and ok3 else 1
 
 
+def replay(pid, path):
+    """re-runs the failing case of a replay file on the current /repo tree and shows implementation / model / spec"""
+    import json, subprocess
+    d = json.load(open(path))
+    print("property %s: %s" % (d.get("property"), d.get("what")))
+    flags = d.get("driver_flags", "") or ""
+    kw = {}
+    if "BUF_SZ=4" in flags:
+        kw.update(buf=4, hbuf=4)
+    if "shim.h" in flags:
+        kw["extra_flags"] = ["-include", os.path.join(wv.HARNESS, "shim.h")]
+    env = {"WV_SCRATCH": "/tmp", "WV_BUF": "4" if "BUF_SZ=4" in flags else "1048576", "WV_HBUF": "4" if "BUF_SZ=4" in flags else "524288"}
+    lines = []
+    if "argv" in d:
+        exe, err = wv.build_impl(kind="cli")
+        print("argv:", d["argv"], "\n(run it in a directory laid out as:", d.get("cwd_layout"), ")")
+        return 0
+    if "sched_seed" in d:
+        lines.append("x @WV_SCHED_SEED=%s,WV_YIELD_IN_CS=%s,WV_SCHED_POLICY=%s pipe %s %d %s" % (d["sched_seed"], d.get("yield_in_cs", 0), d.get("policy", 0) % 10, d["T"], 1 if d.get("ispadding") else 0, d["input_hex"] or "-"))
+    elif "input_file_hex" in d:
+        lines.append("d dec %s %s %s" % (d["T"], d["key"], d["input_file_hex"] or "-"))
+        lines.append("v ver %s %s %s" % (d["T"], d["key"], d["input_file_hex"] or "-"))
+    elif "case" in d:
+        lines.append("x " + d["case"])
+    elif "history" in d:
+        print("history:", d["history"])
+        return 0
+    else:
+        print(json.dumps(d, indent=1)[:3000])
+        return 0
+    exe, err = wv.build_impl(**kw)
+    if exe is None:
+        print(err)
+        return 2
+    impl = wv.run_lines([exe], lines, shards=1, env=env)
+    mdrv = wv.build_model_driver()
+    plain = [l for l in lines if "@" not in l.split()[1]]
+    model = wv.run_lines([mdrv], plain, shards=1, env=env)
+    spec = wv.run_lines([mdrv, "spec"], plain, shards=1, env=env)
+    for l in lines:
+        i = l.split()[0]
+        print("case   :", l[:300])
+        print("  implementation now :", impl.get(i, "")[:300])
+        if i in model:
+            print("  model              :", model.get(i, "")[:300])
+            print("  spec               :", spec.get(i, "")[:300])
+        for k in ("implementation", "expected", "spec", "decrypt", "verify", "expected_decrypt"):
+            if k in d:
+                print("  recorded %-10s:" % k, str(d[k])[:300])
+    return 0
+
+
 def main():
     if len(sys.argv) >= 2 and sys.argv[1] == "--setup":
         return setup()
     pid = sys.argv[1]
+    if len(sys.argv) > 3 and sys.argv[2] == "--replay":
+        return replay(pid, sys.argv[3])
     tier = sys.argv[2] if len(sys.argv) > 2 else os.environ.get("VERIF_TIER", "quick")
     mod = importlib.import_module("props." + pid)
     ck = wv.Check(pid, tier)
